@@ -521,27 +521,7 @@ var tours = []struct {
 		return cc
 	}},
 	{"deposits-of-every-kind", func(rt *rapid.T) *sim.ChainCase { return sim.TourDeposits(rt, nil) }},
-	{"large-registry", func(rt *rapid.T) *sim.ChainCase {
-		// more than 1024 validators on the official minimal preset (4 committees of ~32 per slot): per-validator loops
-		// beyond their first 1024 iterations, aggregation bitfields longer than 4 bytes, registry-parallel lists of dozens of chunks
-		fork := rapid.SampledFrom([][4]uint64{{farE, farE, farE, farE}, {1, farE, farE, farE}, {1, 1, 2, 2}, {1, 1, 1, 1}}).Draw(rt, "forks")
-		cc := &sim.ChainCase{Profile: "full"}
-		cc.Config = sim.ConfigCase{Family: "minimal", ForkEpochs: fork}
-		n := rapid.SampledFrom([]int{1025, 1030, 1100}).Draw(rt, "n")
-		cc.Genesis = genesisN(rt, n, true)
-		for i := 0; i < n; i += 97 {
-			cc.Genesis.AmountClass[i] = rapid.SampledFrom([]int{0, 4, 5}).Draw(rt, "amount_class")
-		}
-		part := rapid.SampledFrom([]int{1000, 800, 600}).Draw(rt, "part")
-		for s := 1; s <= 20; s++ {
-			if s%5 == 0 {
-				cc.Actions = append(cc.Actions, sim.Action{Kind: "skip", Slots: 1})
-				continue
-			}
-			cc.Actions = append(cc.Actions, sim.Action{Kind: "block", Slots: 1, Plan: fullBlock(rt, part)})
-		}
-		return cc
-	}},
+	{"large-registry", sim.TourLargeRegistry},
 	{"upgrades-after-sync-rotation", sim.TourUpgradesAfterSyncRotation},
 	{"justification-patterns", sim.TourJustificationPatterns},
 	{"ejection-wave-capped-activation-churn", func(rt *rapid.T) *sim.ChainCase {
